@@ -418,8 +418,18 @@ func runOne(c *ctx, rc rCase, m *metrics.Metrics) rTrace {
 	seed := c.seed
 	var lightN atomic.Int64
 	lightIDs := make([]int64, 0)
+	// the id exactly as the scenario was handed it, kept (not copied) beyond its iteration the way a scenario that
+	// collects its ids does: `ids = append(ids, t.Iteration)`
+	lightRaw := make([]string, 0)
+	var keptMu sync.Mutex
+	type keptID struct {
+		raw string
+		id  int64
+	}
+	var kept []keptID
 	if rc.cfg.Light {
 		lightIDs = make([]int64, 2_000_000)
+		lightRaw = make([]string, 2_000_000)
 	}
 	fn := func(t *f1testing.T) f1testing.RunFn {
 		t.Cleanup(func() { rec.add(rEv{K: "setupcleanup", A: live.Load(), C: rec.us()}) })
@@ -438,6 +448,7 @@ func runOne(c *ctx, rc rCase, m *metrics.Metrics) rTrace {
 				k := lightN.Add(1)
 				if int(k) <= len(lightIDs) {
 					lightIDs[k-1] = id
+					lightRaw[k-1] = t.Iteration
 				}
 				if rec.returned.Load() {
 					rec.afterS.Add(1)
@@ -458,6 +469,9 @@ func runOne(c *ctx, rc rCase, m *metrics.Metrics) rTrace {
 				hv, _ = handles.LoadOrStore(t, nh.Add(1))
 			}
 			h := hv.(int64)
+			keptMu.Lock()
+			kept = append(kept, keptID{t.Iteration, id})
+			keptMu.Unlock()
 			if rec.returned.Load() {
 				rec.afterS.Add(1)
 			}
@@ -626,6 +640,35 @@ func runOne(c *ctx, rc rCase, m *metrics.Metrics) rTrace {
 			close(release)
 		}
 		return tr
+	}
+	{
+		// ids the scenario kept: each still reads as what it read as when the scenario was handed it
+		changed, total, first := int64(0), int64(0), ""
+		note := func(raw string, id int64) {
+			total++
+			if raw != strconv.FormatInt(id, 10) {
+				changed++
+				if first == "" {
+					first = fmt.Sprintf("kept-%d-now-%s", id, raw)
+				}
+			}
+		}
+		if rc.cfg.Light {
+			n := int(lightN.Load())
+			if n > len(lightIDs) {
+				n = len(lightIDs)
+			}
+			for k := 0; k < n; k++ {
+				note(lightRaw[k], lightIDs[k])
+			}
+		} else {
+			keptMu.Lock()
+			for _, k := range kept {
+				note(k.raw, k.id)
+			}
+			keptMu.Unlock()
+		}
+		rec.add(rEv{K: "idskept", A: changed, B: total, S2: first})
 	}
 	if rc.cfg.Light {
 		n := int(lightN.Load())
